@@ -10,11 +10,13 @@ package main
 //   * compared per operation with the Lean model (c02.run) and the Lean flat specification (c02.flat).
 
 import (
-	"encoding/json"
 	"bytes"
+	"compress/flate"
 	"encoding/binary"
+	"encoding/json"
 	"errors"
 	"fmt"
+	"hash/crc32"
 	"io"
 	"runtime"
 	"strconv"
@@ -30,9 +32,96 @@ func init() { checks["C02"] = checkC02 }
 // file construction
 
 type c02Block struct {
-	Kind string `json:"kind"` // "data" | "empty" (the empty block Close writes) | "marker" (the EOF marker)
+	Kind string `json:"kind"` // "data" | "empty" (the empty block Close writes) | "marker" (the EOF marker) | "hand"
 	Len  int    `json:"len"`
 	Seed int    `json:"seed"`
+	// "hand": a member framed by the harness itself (what another BGZF writer may legally produce):
+	// Stored > 0: the payload in that many stored deflate blocks, else deflated at flate.BestSpeed.
+	Stored int `json:"stored,omitempty"`
+}
+
+// c02HandMember frames one BGZF member from the specification: 18-byte header with the BC sub-field, the
+// deflate stream, CRC-32, ISIZE.  The total size may be anything up to 65536 (BSIZE 0xffff) and the payload
+// anything up to 65536 bytes (ISIZE 0x10000), the limits of the format.
+func c02HandMember(payload []byte, stored int) ([]byte, error) {
+	var body bytes.Buffer
+	if stored > 0 {
+		rest := payload
+		for i := 0; i < stored; i++ {
+			n := (len(rest) + (stored - i) - 1) / (stored - i)
+			if n > 65535 {
+				return nil, fmt.Errorf("stored block of %d bytes", n)
+			}
+			final := byte(0)
+			if i == stored-1 {
+				final = 1
+			}
+			body.Write([]byte{final, byte(n), byte(n >> 8), byte(^n), byte(^n >> 8)})
+			body.Write(rest[:n])
+			rest = rest[n:]
+		}
+	} else {
+		fw, err := flate.NewWriter(&body, flate.BestSpeed)
+		if err != nil {
+			return nil, err
+		}
+		if _, err = fw.Write(payload); err != nil {
+			return nil, err
+		}
+		if err = fw.Close(); err != nil {
+			return nil, err
+		}
+	}
+	var tr [8]byte
+	binary.LittleEndian.PutUint32(tr[:], crc32.ChecksumIEEE(payload))
+	binary.LittleEndian.PutUint32(tr[4:], uint32(len(payload)))
+	body.Write(tr[:])
+	size := 18 + body.Len()
+	if size > 65536 {
+		return nil, fmt.Errorf("hand-framed member of %d bytes does not fit BSIZE", size)
+	}
+	hdr := []byte{0x1f, 0x8b, 8, 4, 0, 0, 0, 0, 0, 0xff, 6, 0, 'B', 'C', 2, 0, byte(size - 1), byte((size - 1) >> 8)}
+	return append(hdr, body.Bytes()...), nil
+}
+
+// c02Extreme: the members at the limits of the format.  (payload, stored blocks): total size exactly 65536
+// (BSIZE 0xffff) in two ways, 65535, payload exactly 65536 (the largest legal ISIZE) and 65535.
+var c02Extreme = []c02Block{
+	{Kind: "hand", Len: 65280, Stored: 46}, // 18 + 65280 + 46*5 + 8 = 65536
+	{Kind: "hand", Len: 65505, Stored: 1},  // 18 + 65505 + 5 + 8 = 65536
+	{Kind: "hand", Len: 65279, Stored: 46}, // 65535
+	{Kind: "hand", Len: 65536},             // deflated, ISIZE 0x10000
+	{Kind: "hand", Len: 65535},
+}
+
+// genC02ExtremeFile: a file around one or two members at the limits of the format.
+func genC02ExtremeFile(rnd *Rand, allow64k bool) *c02File {
+	f := &c02File{}
+	small := func() c02Block {
+		return c02Block{Kind: "data", Len: rnd.pick([]int{1, 2, 7, 100, 700}), Seed: rnd.intn(256)}
+	}
+	if rnd.coin(1, 2) {
+		f.Blocks = append(f.Blocks, small())
+	}
+	if rnd.coin(1, 4) {
+		f.Blocks = append(f.Blocks, c02Block{Kind: "empty"})
+	}
+	for i, n := 0, rnd.pick([]int{1, 1, 2}); i < n; i++ {
+		b := c02Extreme[rnd.intn(len(c02Extreme))]
+		if b.Len > 65535 && !allow64k {
+			b = c02Extreme[0]
+		}
+		b.Seed = rnd.intn(256)
+		f.Blocks = append(f.Blocks, b)
+		if rnd.coin(1, 3) {
+			f.Blocks = append(f.Blocks, c02Block{Kind: "empty"})
+		}
+	}
+	f.Blocks = append(f.Blocks, small())
+	if rnd.coin(1, 2) {
+		f.Blocks = append(f.Blocks, c02Block{Kind: "marker"})
+	}
+	return f
 }
 
 type c02File struct {
@@ -151,6 +240,11 @@ func (f *c02File) build() error {
 			m = ms[k]
 			k++
 			payload = c02Payload(b.Seed, b.Len)
+		case b.Kind == "hand":
+			payload = c02Payload(b.Seed, b.Len)
+			if m, err = c02HandMember(payload, b.Stored); err != nil {
+				return err
+			}
 		case b.Kind == "marker":
 			m = markerM
 		default:
@@ -766,6 +860,9 @@ func checkC02(c *ctx) {
 		procs := procsList[h*len(procsList)/nHist]
 		runtime.GOMAXPROCS(procs)
 		f := genC02File(c.rnd)
+		if h%10 == 9 {
+			f = genC02ExtremeFile(c.rnd, false) // hand-framed members at the limits of the format (payload <= 65535)
+		}
 		if err := f.build(); err != nil {
 			r.fail("c02.build", err.Error(), c02Input{File: c02File{Blocks: f.Blocks}})
 			continue
@@ -804,6 +901,8 @@ func checkC02(c *ctx) {
 		r.hist(fmt.Sprintf("file.blocks.%d", len(f.Blocks)))
 		for _, b := range f.Blocks {
 			switch {
+			case b.Kind == "hand":
+				r.hist(fmt.Sprintf("block.hand.payload%d.stored%d", b.Len, b.Stored))
 			case b.Kind != "data":
 				r.hist("block." + b.Kind)
 			case b.Len >= bgzf.BlockSize-1:
